@@ -211,6 +211,42 @@ pub fn judge(c: &Case, st: &mut Stats) -> Verdict {
         }
     }
     let _ = stopped_at;
+    // the same receiver built on the version's own parser
+    let mut have = 0usize;
+    for n in reads(stream.len(), c.split_seed.rotate_left(7)) {
+        have += n;
+        let (complete, ok_len, shown) = if is_v1 {
+            match imp::v1_bytes(&stream[..have]) {
+                Ok(r) => (r.is_complete(), r.as_ref().ok().map(|h| h.header.len()), imp::short(&format!("{:?}", r))),
+                Err(_) => return Ok(()),
+            }
+        } else {
+            match imp::v2_parse(&stream[..have]) {
+                Ok(r) => (r.is_complete(), r.as_ref().ok().map(|h| h.header.len()), imp::short(&format!("{:?}", r.as_ref().map(|h| h.header.len())))),
+                Err(_) => return Ok(()),
+            }
+        };
+        if complete {
+            if have < h.len() || ok_len != Some(h.len()) {
+                return Err(Fail::new(
+                    "receiver-diverges:dedicated-parser",
+                    sh(h),
+                    if is_v1 { "v1::Header::try_from in a read loop" } else { "v2::Header::try_from in a read loop" },
+                    format!("stops once all {} header bytes have arrived, with a header of that length", h.len()),
+                    format!("stopped with {} bytes buffered: {}", have, shown),
+                ));
+            }
+            break;
+        } else if have >= h.len() {
+            return Err(Fail::new(
+                "receiver-keeps-waiting:dedicated-parser",
+                sh(h),
+                if is_v1 { "v1::Header::try_from in a read loop" } else { "v2::Header::try_from in a read loop" },
+                format!("a complete result once all {} header bytes are buffered", h.len()),
+                format!("still incomplete with {} bytes buffered: {}", have, shown),
+            ));
+        }
+    }
     if !c.trailer.is_empty() {
         st.class("stream-with-trailer");
     }
